@@ -707,6 +707,36 @@ class Normalizer:
 
         for i, b in enumerate(func.body):
             func.body[i] = T().visit(b)
+        class T2(ast.NodeTransformer):
+            """what the substitution of a constant leaves foldable: ``"Sheet".lower()``, a literal inside an f-string"""
+
+            def visit_Call(self, node):
+                self.generic_visit(node)
+                f_ = node.func
+                if isinstance(f_, ast.Attribute) and isinstance(f_.value, ast.Constant) and isinstance(f_.value.value, str) and not node.args and not node.keywords \
+                        and f_.attr in ("lower", "upper", "casefold", "strip", "title", "capitalize"):
+                    return ast.copy_location(ast.Constant(getattr(f_.value.value, f_.attr)()), node)
+                return node
+
+            def visit_JoinedStr(self, node):
+                self.generic_visit(node)
+                vals = []
+                for v in node.values:
+                    if isinstance(v, ast.FormattedValue) and v.conversion == -1 and v.format_spec is None and isinstance(v.value, ast.Constant) \
+                            and isinstance(v.value.value, (str, int)) and not isinstance(v.value.value, bool):
+                        v = ast.Constant(str(v.value.value))
+                    if isinstance(v, ast.Constant) and vals and isinstance(vals[-1], ast.Constant):
+                        vals[-1] = ast.Constant(vals[-1].value + v.value)
+                    else:
+                        vals.append(v)
+                if len(vals) == 1 and isinstance(vals[0], ast.Constant):
+                    return ast.copy_location(vals[0], node)
+                node.values = vals
+                return node
+
+        if norm.report["constants"]:
+            for i, b in enumerate(func.body):
+                func.body[i] = ast.fix_missing_locations(T2().visit(b))
         # defaults are evaluated in the enclosing scope: the function's own locals do not shadow them
         local = set()
         func.args.defaults = [T().visit(d) for d in func.args.defaults]
@@ -795,6 +825,24 @@ class Normalizer:
                         p = par.get(id(p))
                     rebinds = {n.id for n in ast.walk(func) if isinstance(n, ast.Name) and isinstance(n.ctx, ast.Store) and n.id in roots and st.lineno < getattr(n, "lineno", 0) <= last_use}
                     if not rebinds <= enclosing_targets:
+                        continue
+                # what the value reads from the heap (``self._max_id + 1``) must not be stored between the definition and the last use
+                heap_reads = {U(x) for x in ast.walk(rhs) if isinstance(x, (ast.Attribute, ast.Subscript))}
+                if heap_reads:
+                    clobbered = False
+                    for x in ast.walk(func):
+                        tg_ = []
+                        if isinstance(x, ast.Assign):
+                            tg_ = [t_ for t0 in x.targets for t_ in ast.walk(t0) if isinstance(t_, (ast.Attribute, ast.Subscript)) and isinstance(t_.ctx, ast.Store)]
+                        elif isinstance(x, (ast.AugAssign, ast.AnnAssign)) and isinstance(x.target, (ast.Attribute, ast.Subscript)):
+                            tg_ = [x.target]
+                        elif isinstance(x, ast.Delete):
+                            tg_ = [t_ for t_ in x.targets if isinstance(t_, (ast.Attribute, ast.Subscript))]
+                        for t_ in tg_:
+                            tt_ = U(t_)
+                            if st.lineno <= getattr(x, "lineno", 0) <= last_use and x is not st and any(h_ == tt_ or h_.startswith(tt_ + ".") or h_.startswith(tt_ + "[") or tt_.startswith(h_ + ".") or tt_.startswith(h_ + "[") for h_ in heap_reads):
+                                clobbered = True
+                    if clobbered:
                         continue
                 # all uses must come after the definition (line order) and the alias must not be used as an assignment target base
                 uses = [n for n in ast.walk(func) if isinstance(n, ast.Name) and n.id == name and isinstance(n.ctx, ast.Load)]
@@ -1279,6 +1327,50 @@ class Normalizer:
                     out[name] = (ast.Constant(pv), st.value.args[1] if len(st.value.args) == 2 else None)
         return out
 
+    def _struct_constants(self):
+        """New module-level names bound once to ``struct.Struct(<constant format>)``: name -> format."""
+        out = {}
+        pinned = _pinned_module(self.rel)
+        for st in self.tree.body:
+            if isinstance(st, ast.Assign) and len(st.targets) == 1 and isinstance(st.targets[0], ast.Name) and st.targets[0].id not in pinned \
+                    and isinstance(st.value, ast.Call) and U(st.value.func) in ("struct.Struct", "Struct") and len(st.value.args) == 1 and not st.value.keywords:
+                fmt = try_const(st.value.args[0], self.const_env, default=_NO)
+                name = st.targets[0].id
+                stores = sum(1 for x in ast.walk(self.tree) if isinstance(x, ast.Name) and x.id == name and isinstance(x.ctx, (ast.Store, ast.Del)))
+                if isinstance(fmt, str) and stores == 1:
+                    out[name] = fmt
+        return out
+
+    def _inline_struct_constants(self, func, structs):
+        """``NAME.pack(x)`` -> ``struct.pack(<fmt>, x)``; likewise unpack / unpack_from / iter_unpack; ``NAME.size`` -> the number."""
+        import struct as _struct
+        local = _local_names(func)
+        norm = self
+
+        class T(ast.NodeTransformer):
+            def visit_Call(self, node):
+                self.generic_visit(node)
+                f = node.func
+                if isinstance(f, ast.Attribute) and isinstance(f.value, ast.Name) and f.value.id in structs and f.value.id not in local \
+                        and f.attr in ("pack", "unpack", "unpack_from", "iter_unpack", "pack_into"):
+                    new = ast.Call(func=ast.Attribute(value=ast.Name(id="struct", ctx=ast.Load()), attr=f.attr, ctx=ast.Load()),
+                                   args=[ast.Constant(structs[f.value.id])] + list(node.args), keywords=list(node.keywords))
+                    norm.report["constants"].append(f.value.id)
+                    return ast.copy_location(ast.fix_missing_locations(new), node)
+                return node
+
+            def visit_Attribute(self, node):
+                self.generic_visit(node)
+                if isinstance(node.ctx, ast.Load) and node.attr == "size" and isinstance(node.value, ast.Name) and node.value.id in structs and node.value.id not in local:
+                    try:
+                        return ast.copy_location(ast.Constant(_struct.calcsize(structs[node.value.id])), node)
+                    except _struct.error:
+                        return node
+                return node
+
+        for i, b in enumerate(func.body):
+            func.body[i] = T().visit(b)
+
     def _inline_compiled_patterns(self, func, pats):
         """``NAME.sub(r, s)`` -> ``re.sub(<pattern>, r, s)`` (and match / search / fullmatch / findall / finditer / split with the
         text as only positional argument) for a compiled pattern kept in a new module-level constant."""
@@ -1303,15 +1395,100 @@ class Normalizer:
         for i, b in enumerate(func.body):
             func.body[i] = T().visit(b)
 
+    def _positional_arguments(self, func, cls_name):
+        """``f(a, y=2, x=1)`` -> ``f(a, 1, 2)`` when the definition of ``f`` is at hand (a module-level or nested function called
+        by name, a method of the enclosing class called on self/cls, a method of the model called on ``<x>._model``), it takes no
+        ``*args``, and the keyword values are plain (names, constants, attribute chains: nothing whose order of evaluation could
+        be observed) or already stand in the order of the parameters."""
+        mod_defs = {n.name: n for n in self.tree.body if isinstance(n, ast.FunctionDef)}
+        nested = {n.name: n for n in ast.walk(func) if isinstance(n, ast.FunctionDef) and n is not func}
+        cls_defs = {}
+        if cls_name:
+            for c in self.tree.body:
+                if isinstance(c, ast.ClassDef) and c.name == cls_name:
+                    cls_defs = {m.name: m for m in c.body if isinstance(m, ast.FunctionDef)}
+
+        def plain(e):
+            return isinstance(e, (ast.Name, ast.Constant)) or (isinstance(e, ast.Attribute) and plain(e.value))
+
+        # keywords the reference version of this function already writes for that callee are vocabulary the rules know
+        ref_f = self._reference_func(func)
+        ref_kw = set()
+        if ref_f is not None:
+            for rc in ast.walk(ref_f):
+                if isinstance(rc, ast.Call):
+                    nm = rc.func.attr if isinstance(rc.func, ast.Attribute) else getattr(rc.func, "id", None)
+                    for k in rc.keywords:
+                        ref_kw.add((nm, k.arg))
+        changed = False
+        for c in ast.walk(func):
+            if not isinstance(c, ast.Call) or not c.keywords or any(k.arg is None for k in c.keywords) or any(isinstance(a, ast.Starred) for a in c.args):
+                continue
+            callee_nm = c.func.attr if isinstance(c.func, ast.Attribute) else getattr(c.func, "id", None)
+            if any((callee_nm, k.arg) in ref_kw for k in c.keywords):
+                continue
+            d, bound = None, False
+            f = c.func
+            if isinstance(f, ast.Name):
+                d = nested.get(f.id) or mod_defs.get(f.id)
+                if d is None and f.id in PACKAGE_FUNCTIONS and any(
+                        isinstance(i_, ast.ImportFrom) and any((a_.asname or a_.name) == f.id for a_ in i_.names) for i_ in self.tree.body):
+                    d = PACKAGE_FUNCTIONS[f.id]
+            elif isinstance(f, ast.Attribute) and isinstance(f.value, ast.Name) and f.value.id in ("self", "cls"):
+                d, bound = cls_defs.get(f.attr), True
+            elif isinstance(f, ast.Attribute) and isinstance(f.value, ast.Attribute) and f.value.attr == "_model":
+                d, bound = MODEL_SIGNATURES.get(f.attr), True
+            elif isinstance(f, ast.Attribute) and isinstance(f.value, ast.Name) and f.value.id == "model" and f.attr in MODEL_SIGNATURES and self.rel.endswith("document.py"):
+                d, bound = MODEL_SIGNATURES.get(f.attr), True
+            if d is None or d.args.vararg or d.args.posonlyargs:
+                continue
+            decos = [U(x) for x in d.decorator_list]
+            params = [a.arg for a in d.args.args]
+            if bound and "staticmethod" not in decos and params and params[0] in ("self", "cls"):
+                params = params[1:]
+            if any("cache" in x for x in decos):
+                continue  # a memoising decorator indexes *args: the spelling of the call is part of its meaning
+            rest = params[len(c.args):]
+            kw = {k.arg: k.value for k in c.keywords}
+            if not set(kw) <= set(params) or len(kw) != len(c.keywords):
+                continue
+            in_order = [k.arg for k in c.keywords] == [p_ for p_ in rest if p_ in kw]
+            if not (in_order or all(plain(v) for v in kw.values())):
+                continue
+            moved = []
+            for p_ in rest:
+                if p_ in kw:
+                    moved.append(kw.pop(p_))
+                else:
+                    break
+            if moved:
+                c.args = list(c.args) + moved
+                c.keywords = [k for k in c.keywords if k.arg in kw]
+                changed = True
+        if changed:
+            self.report.setdefault("positional", []).append(func.name)
+        return changed
+
     def run(self):
         tree = self.tree
         pats = self._compiled_patterns()
+        structs = self._struct_constants()
         for n in list(ast.walk(tree)):
             if not isinstance(n, ast.FunctionDef):
                 continue
             if pats:
                 self._inline_compiled_patterns(n, pats)
+            if structs:
+                self._inline_struct_constants(n, structs)
             q = _qual(n, self.par)
+            cls0 = None
+            pp0 = self.par.get(id(n))
+            while pp0 is not None:
+                if isinstance(pp0, ast.ClassDef):
+                    cls0 = pp0.name
+                    break
+                pp0 = self.par.get(id(pp0))
+            self._positional_arguments(n, cls0)
             p = self.par.get(id(n))
             cls_name = None
             pp = p
@@ -1352,6 +1529,10 @@ class Normalizer:
                 self._renumber(n)
         ast.fix_missing_locations(tree)
         return tree
+
+
+MODEL_SIGNATURES = {}
+PACKAGE_FUNCTIONS = {}
 
 
 def _flatten_starred_displays(func):
